@@ -1,4 +1,4 @@
-import MpgsModel.Model.Conn
+import MpgsModel.Model.Handshake
 import MpgsModel.Model.ToyAead
 import MpgsModel.Model.DriverUtil
 /-! Line-protocol driver for the Wire/Conn layers.  `lake env lean --run Driver/Conn.lean`
@@ -6,6 +6,7 @@ import MpgsModel.Model.DriverUtil
 open Mpgs Mpgs.Util Mpgs.Bytes Mpgs.Wire Mpgs.Conn
 
 structure Ep where
+  kind : String := "base"          -- base | csc (ClientServerConnection) | scc (ServerClientConnection)
   conn : Conn
   emitsRev : List Bytes := []     -- newest first: appending and reading recent emissions is O(1)
   nEmits : Nat := 0
@@ -50,6 +51,7 @@ def showEvent : Event → String
   | .resolved s ok => s!"res:{s}:{if ok then 1 else 0}"
   | .dropped => "drop"
   | .clientDisconnectCb => "dcb"
+  | .promoted => "promoted"
 
 def showEvents (es : List Event) : String :=
   if es.isEmpty then "-" else ",".intercalate (es.map showEvent)
@@ -82,7 +84,7 @@ def dump (c : Conn) : String :=
   s!"st={statusNum c.status} key={if (keyed c.key).isSome then 1 else 0} ss={c.seqSending} sm={c.seqMessage} sf={c.seqFragment} " ++
   s!"bp={c.bfPkt.cur}:{c.bfPkt.bits} bm={c.bfMsg.cur}:{c.bfMsg.bits} pa={pa} pc={pc} pr={pr} prm={prm} out={out} rf={rf} pf={pf} " ++
   s!"ro={ro} fo={fo} ctr={c.assembled},{c.sent},{c.dropped},{c.received},{c.acked},{c.timeouts} " ++
-  s!"last={c.lastRecv},{c.lastSend},{c.lastKeepAlive} inc={c.incoming.length}"
+  s!"last={c.lastRecv},{c.lastSend},{c.lastKeepAlive} inc={c.incoming.length} tok={c.token} hs={c.helloSentAt}"
 
 /-- apply the byte-level mutations of a recv line: set:<off>:<hex>  trunc:<n>  ext:<hex>  flip:<bit> -/
 def applyMut (d : Bytes) (m : String) : Option Bytes :=
@@ -106,10 +108,28 @@ def applyMuts (d : Bytes) : List String → Option Bytes
   | m :: ms => (applyMut d m).bind (fun d' => applyMuts d' ms)
 
 /-- resolve the datagram operand of a recv line -/
-def datagramOf (st : St) (ws : List String) : Option Bytes := do
+def ptypeOfNat (n : Nat) : PType :=
+  match PType.ofWire n with | .ok t => t | .error _ => .unknown
+
+def craft (spec : String) (toServer : Bool) : Option Bytes :=
+  match (spec.drop 1).toString.splitOn ":" with
+  | [f, pt, key] =>
+    match (f.splitOn ",").map String.toNat?, fromHex pt with
+    | [some ty, some seq, some ack, some bits, some ct, some count], some p =>
+      let h : Header := ⟨!toServer, ct, ptypeOfNat ty, seq, ack, bits, p.length, count⟩
+      match encodeHdr h with
+      | .error _ => none
+      | .ok hb =>
+        if key == "none" then some (hb ++ p ++ be32 (crc32 (hb ++ p)))
+        else (fromHex key).map (fun k => hb ++ Toy.aseal k (take 12 hb) hb p)
+    | _, _ => none
+  | _ => none
+
+def datagramOf (st : St) (ws : List String) (toServer : Bool := true) : Option Bytes := do
   let dspec ← kv ws "d"
   let base ←
-    if dspec.startsWith "@" then
+    if dspec.startsWith "!" then craft dspec toServer
+    else if dspec.startsWith "@" then
       match (dspec.drop 1).toString.splitOn ":" with
       | [e, k] => do
         let ep ← getEp st e
@@ -127,9 +147,6 @@ def datagramOf (st : St) (ws : List String) : Option Bytes := do
     | none => pure base
   let muts := ws.filter (fun w => w.startsWith "mut=") |>.map (fun w => (w.drop 4).toString)
   applyMuts base muts
-
-def ptypeOfNat (n : Nat) : PType :=
-  match PType.ofWire n with | .ok t => t | .error _ => .unknown
 
 def hdrOf (ws : List String) : Option Header := do
   let srv ← kvNat ws "srv"
@@ -158,6 +175,36 @@ def parseMsgList (s : String) : Option (List WMsg) :=
 def showMsgList (ms : List WMsg) : String :=
   if ms.isEmpty then "-" else ";".intercalate (ms.map (fun m => s!"{m.seq}:{m.ty.toNat}:{toHexD m.payload}"))
 
+/-- handshake externals answered by the oracle of this op line (`orc=...`, see harness/connlib.py) -/
+def hsOf (ws : List String) : Hs :=
+  let bad : Hs := ⟨fun _ => .error .exception, fun _ => .error .exception, fun _ _ _ => false,
+    fun _ => .error .exception, fun _ => .error .exception, fun _ _ => [], fun _ _ => ([], []), fun _ => []⟩
+  match (kv ws "orc").map (fun o => o.splitOn ":") with
+  | some ["sh", "err"] => bad
+  | some ["sh", "badsig"] => { bad with parseServerHello := fun _ => .ok ([], [], []) }
+  | some ["sh", "perr"] => { bad with parseServerHello := fun _ => .ok ([], [], []), verify := fun _ _ _ => true }
+  | some ["sh", "ok", key, tok, chal] =>
+    match fromHex key, tok.toNat?, fromHex chal with
+    | some k, some t, some ch =>
+      { bad with parseServerHello := fun _ => .ok ([], [], []), verify := fun _ _ _ => true,
+                 parsePayload := fun _ => .ok ([], [], t), ecdhClient := fun _ _ => k, challengeBytes := fun _ => ch }
+    | _, _, _ => bad
+  | some ["ch", "err"] => bad
+  | some ["ch", "ver", v] => { bad with parseClientHello := fun _ => .ok ((parseInt v).getD 0) }
+  | some ["ch", "ok", key, sh] =>
+    match fromHex key, fromHex sh with
+    | some k, some b => { bad with parseClientHello := fun _ => .ok 1, serverReply := fun _ _ => (k, b) }
+    | _, _ => bad
+  | some ["cr", "err"] => bad
+  | some ["cr", tok] => { bad with parseChallenge := fun _ => match tok.toNat? with | some t => .ok t | none => .error .exception }
+  | _ => bad
+
+def roleOf (ep : Ep) (ws : List String) : Role :=
+  if ep.kind == "csc" then clientRole (hsOf ws)
+  else if ep.kind == "scc" then
+    serverRole (hsOf ws) ((kvNat ws "tok").getD 0) ((kv ws "temptok").bind String.toNat?)
+  else baseRole
+
 def stepLine (st : St) (line : String) : St × List String :=
   let ws := words line
   match ws with
@@ -168,7 +215,8 @@ def stepLine (st : St) (line : String) : St × List String :=
       | some m => ({ st with sz := ⟨m⟩ }, [])
       | none => (st, ["bad-op"])
   | ["new", e, role] =>
-      (setEp st e ⟨{ isServer := role == "server" }, [], 0⟩, [])
+      let kind := if role == "csc" then "csc" else if role.startsWith "scc" then "scc" else "base"
+      (setEp st e ⟨kind, { isServer := role == "server" || role.startsWith "scc" }, [], 0⟩, [])
   | "set" :: e :: rest =>
     match getEp st e with
     | none => (st, ["bad-op"])
@@ -185,6 +233,12 @@ def stepLine (st : St) (line : String) : St × List String :=
       let c := match kvNat rest "ss" with | some v => { c with seqSending := v } | none => c
       let c := match kvNat rest "sm" with | some v => { c with seqMessage := v } | none => c
       let c := match kvNat rest "sf" with | some v => { c with seqFragment := v } | none => c
+      let c := match kvInt rest "tt" with | some v => { c with tempTimeout := v } | none => c
+      let c := match kv rest "ccb" with | some v => { c with hasConnectCb := v == "1" } | none => c
+      let c := match kv rest "pinned" with
+        | some "none" => { c with pinned := none }
+        | some hx => (match fromHex hx with | some k => { c with pinned := some k } | none => c)
+        | none => c
       (setEp st e { ep with conn := c }, [])
   | "send" :: e :: rest =>
     match getEp st e, kvNat rest "len", kvNat rest "seed", kvInt rest "retry" with
@@ -214,19 +268,34 @@ def stepLine (st : St) (line : String) : St × List String :=
           let line := s!"pkt ty={h.ptype.toNat} seq={h.seq} ack={h.ack} bits={h.ackBits} count={h.count} len={h.length} " ++
             s!"sealed={if sealed then 1 else 0} ct={h.ctime} pt={digest pkt.msg} dlen={d.length} hdr={toHex (take 20 d)}" ++
             (if sealed then "" else s!" dcrc={crc32 d}")
-          (setEp st e { conn := c, emitsRev := d :: ep.emitsRev, nEmits := ep.nEmits + 1 }, [line])
+          (setEp st e { ep with conn := c, emitsRev := d :: ep.emitsRev, nEmits := ep.nEmits + 1 }, [line])
     | _, _ => (st, ["bad-op"])
   | "recv" :: e :: rest =>
-    match getEp st e, kvInt rest "t", datagramOf st rest with
+    match getEp st e, kvInt rest "t", (getEp st e).bind (fun ep => datagramOf st rest ep.conn.isServer) with
     | some ep, some t, some d =>
       match decodeHdr ep.conn.isServer d with
       | .error x => (st, ["hdrerr:" ++ wireErrName x])
       | .ok h =>
-        let (c, ev, ret) := recvDatagram Toy.crypto baseRole ep.conn t h d
-        let r := match ret with | .accepted => "T" | .rejected => "F" | .raised x => "err:" ++ errName x
+        let (c, ev, ret) := recvDatagram Toy.crypto (roleOf ep rest) ep.conn t h d
+        let hsErr (x : Conn.Err) : String :=
+          -- exceptions raised by the hello handlers are compared as a class of their own, except InvalidSignature
+          if ep.kind == "base" then errName x
+          else match x with
+            | .invalidSignature => "InvalidSignature" | .structError => "error" | _ => "hs"
+        let r := match ret with | .accepted => "T" | .rejected => "F" | .raised x => "err:" ++ hsErr x
         (setEp st e { ep with conn := c }, [s!"ret={r} ev={showEvents ev}"])
     | some _, some _, none => (st, ["noemit"])
     | _, _, _ => (st, ["bad-op"])
+  | "hello" :: e :: rest =>
+    match getEp st e, kvInt rest "t", (kv rest "d").bind fromHex with
+    | some ep, some t, some d => (setEp st e { ep with conn := sendClientHello ep.conn t d }, ["ok"])
+    | _, _, _ => (st, ["bad-op"])
+  | "cupd" :: e :: rest =>
+    match getEp st e, kvInt rest "t" with
+    | some ep, some t =>
+      let (c, ev) := clientUpdate ep.conn t
+      (setEp st e { ep with conn := c }, [s!"st={statusNum c.status} ev={showEvents ev}"])
+    | _, _ => (st, ["bad-op"])
   | "tmo" :: e :: rest =>
     match getEp st e, kvInt rest "t" with
     | some ep, some t =>
